@@ -223,11 +223,14 @@ func maxFileUnder(dir string) int64 {
 	return m
 }
 
-func runOverlay(c *ovCase, spelling string, explicitParents bool, nm string, tmp string, extras bool) (obs ovObs) {
+func runOverlay(c *ovCase, spelling string, explicitParents bool, nm string, tmp string, extras bool, history bool) (obs ovObs) {
 	if c.Limit > 0 {
 		explicitParents = false // the parents of a skipped oversize file would be real entries the abstract layer does not have
 	}
 	obs.Variant = fmt.Sprintf("%s/parents=%v/%s", spelling, explicitParents, nm)
+	if !history {
+		obs.Variant += "/no-history"
+	}
 	var specs []layerSpec
 	for i, l := range c.Layers {
 		data, err := ovTar(l, spelling, explicitParents, nm)
@@ -237,7 +240,7 @@ func runOverlay(c *ovCase, spelling string, explicitParents bool, nm string, tmp
 		}
 		specs = append(specs, layerSpec{Tar: data, Cmd: fmt.Sprintf("RUN layer %d", i+1)})
 	}
-	v1img, err := buildImage(specs, true)
+	v1img, err := buildImage(specs, history)
 	if err != nil {
 		obs.Err = "harness image: " + err.Error()
 		return
@@ -348,11 +351,12 @@ func init() {
 			}
 			v := variants[idx%len(variants)]
 			extras := e.Args["extras_every"] == "" || e.Args["extras_every"] == "1" || idx%2 == 0
-			runs := []ovObs{runOverlay(&c, v[0], v[1] == "1", v[2], e.Tmp, extras)}
+			// every third image carries no config history (optional in OCI): the views must be the same
+			runs := []ovObs{runOverlay(&c, v[0], v[1] == "1", v[2], e.Tmp, extras, idx%3 != 1)}
 			if e.Args["allvariants"] == "1" {
 				for _, w := range variants {
 					if w != v {
-						runs = append(runs, runOverlay(&c, w[0], w[1] == "1", w[2], e.Tmp, false))
+						runs = append(runs, runOverlay(&c, w[0], w[1] == "1", w[2], e.Tmp, false, idx%3 == 1))
 					}
 				}
 			}
